@@ -117,7 +117,19 @@ def op_pe(facts, fn):
         it = OpInterp(facts, fn, se_summaries(facts), protocol=False)
         p = PathEnum(facts, fn, interp=it)
         p.revisit = True
-        p.init = {k_: v for k_, v in a.init.items() if not k_.startswith('["$')}
+        # path conditions describe ONE activation that may be any activation: only what `next` itself never writes may be assumed
+        # to still hold its constructed value (a field such as a remembered watermark is unknown at the start of an activation)
+        from .modset import mod_fields
+        import json as _json
+        ms = mod_fields(facts, fn)
+
+        def _written(k_):
+            try:
+                kp = _json.loads(k_)
+            except ValueError:
+                return False
+            return len(kp) >= 3 and kp[0] == 1 and kp[1] == '*' and isinstance(kp[2], list) and kp[2][0] == 'f' and ('*' in ms or kp[2][2] in ms)
+        p.init = {k_: v for k_, v in a.init.items() if not k_.startswith('["$') and not _written(k_)}
         _ope[k] = (fn, p)
     return _ope[k][1]
 
